@@ -5,7 +5,8 @@ from vlib import hexs, exc_kind, ilist
 
 PROP = "C13"
 TRUSTED = [
-    "Model/RRuleStr.lean is a hand model of rrule.__str__ and of _rrulestr._parse_rfc/_parse_rfc_rrule/_handle_* at the level of the keyword arguments handed to rrule()/rruleset; tied by the rrs.str / rrs.parse correspondence ops (the implementation's constructor calls are recorded in-process)",
+    "Model/RRuleStr.lean is the model the theorems speak about; rrule.__str__, _rrulestr._parse_rfc, _parse_rfc_rrule, every _handle_* method, _parse_date_value and __call__ are re-translated from source on every run (Generated/RRuleStrKernels.lean) and proved equal to it (gen_*_eq_model): every method of _rrulestr is translated as a whole; the rrs.parse correspondence still records the implementation's constructor and parser.parse calls in-process and compares them with the model, and rrsgen.call answers every such request through the translation",
+    "hand-modelled primitives the translation rests on: _common.weekday.__repr__ / __call__ (weekdayRepr, weekdayCall), str.split/upper/strip/int for ASCII, strftime's %m %d %H %M %S as two-digit fields, '%04d'; parser.parse is a parameter of the translated _parse_date_value and its result is kept as text + options in _handle_UNTIL and for RDATE values (C02); a _parse_date_value call inside the dispatch loop is represented by its parameter check and one record per value (gen_parse_date_value_naive); rruleset(cache=) with its rrule/rdate/exrule/exdate calls is the record Parsed.set; lazy imports are skipped (first-use behaviour: fresh-interpreter stream)",
     "date values go through parser.parse in the real code (C02); the model covers only the compact form YYYYMMDDTHHMMSS[Z] that __str__ emits — other spellings are compared on the implementation only",
     "rrule(**kwargs) itself is C01's constructor; 'same kwargs => same occurrences' is determinism of C01's model",
     "TZID resolution (the pre-scan, the name table, the parameter loop of _parse_date_value, the zone attach) and the unfold loop are re-translated from source on every run (harness/translate_str.py -> Generated/RRuleStrKernels.lean) and tied to the hand model by gen_prefix_eq_model / gen_unfold_loop_eq_model / gen_dateParms_eq_model; the translation is run (ops rrsgen.*) against the very statements it was made from, compiled from the same AST nodes",
@@ -527,8 +528,11 @@ def gen_correspondence(ctx, rules, rng):
             ctx.mismatch("rrsgen.prefix (translated _parse_rfc prefix vs the statements themselves)", q, e, g)
     ctx.traces += len(reqs); ctx.count("gen_prefix_cases", len(reqs))
     # 2. the parameter loop
-    class Mark(object):
+    class Mark(datetime.tzinfo):
         def __init__(self, how, name): self.how, self.name = how, name
+        def utcoffset(self, dt): return datetime.timedelta(hours=1)
+        def dst(self, dt): return datetime.timedelta(0)
+        def tzname(self, dt): return "mark"
     class Mapping(object):
         def get(self, k, default=None): return Mark("m", k)
     pool = ["TZID=X", "TZID=Y", "TZID=NOPE", "VALUE=DATE-TIME", "VALUE=DATE", "FOO=1", "TZID=", "TZID=ATZID=X", "XTZID=Y", "TZID=X;", "tzid=X", "", "VALUE=DATE-TIME "]
@@ -550,13 +554,67 @@ def gen_correspondence(ctx, rules, rng):
                 e = "err " + exc_kind(ex)
             reqs.append("rrsgen.parms %s [%s] [%s]" % (kind, ",".join(hexs(k) + ":" + hexs(v) for k, v in table.items()), ",".join(hexs(x) for x in parms)))
             exp.append(e)
+            # the WHOLE method on the same parameters and one to three compact date values (some with Z): the real _parse_date_value
+            import dateutil.rrule as RR
+            vals = [rng.choice(["19970902T090000", "19970903T090000Z", "00010101T000000", "20240229T235959"]) for _ in range(rng.randint(1, 3))]
+            value = ",".join(vals)
+            try:
+                res = RR.rrulestr._parse_date_value(value, parms, table, False, tzids, None)
+                def zmark(z):
+                    if z is None: return "-"
+                    if isinstance(z, Mark): return "l" + z.how + hexs(z.name)
+                    return "t"
+                e2 = "ok [" + ",".join(hexs(v_) + "/" + zmark(d.tzinfo) for v_, d in zip(vals, res)) + "]"
+                if len(res) != len(vals) or any(d.replace(tzinfo=None) != datetime.datetime.strptime(v_.rstrip("Z"), "%Y%m%dT%H%M%S") for v_, d in zip(vals, res)):
+                    e2 = "ok wrong datetimes " + repr(res)
+            except Exception as ex:
+                e2 = "err " + exc_kind(ex)
+            reqs.append("rrsgen.datevalue %s [%s] [%s] %s" % (kind, ",".join(hexs(k) + ":" + hexs(v) for k, v in table.items()), ",".join(hexs(x) for x in parms), hexs(value)))
+            exp.append(e2)
     finally:
         TZ.gettz = saved
     got = ctx.driver(reqs)
     for q, e, g in zip(reqs, exp, got):
         if e != g:
-            ctx.mismatch("rrsgen.parms (translated _parse_date_value parameter loop vs the statements themselves)", q, e, g)
+            ctx.mismatch("rrsgen.parms / rrsgen.datevalue (translated _parse_date_value vs the statements / the method itself)", q, e, g)
     ctx.traces += len(reqs); ctx.count("gen_parms_cases", len(reqs))
+    # 2b. the line dispatch loop of _parse_rfc: the `for line in lines:` statement itself, with _parse_date_value stubbed to return one
+    #     record per ,-separated value after the real parameter check
+    if loc.get("dispatch") is not None:
+        import dateutil.rrule as RR
+        c_disp = frag([loc["dispatch"]])
+        class Stub(object):
+            def _parse_date_value(self, value, parms, names, ignoretz, tzids, tzinfos):
+                RR.rrulestr._parse_date_value("19970902T090000", parms, {}, False, lambda n: None, None)       # the parameter check (ValueError)
+                return [(v, tuple(parms)) for v in value.split(",")]
+        extra = ["RDATE:19970910T090000,19970911T090000", "EXDATE:19970902T090000", "EXRULE:FREQ=WEEKLY;COUNT=2", "RRULE:FREQ=YEARLY", "RDATE;VALUE=DATE-TIME:1",
+                 "RDATE;VALUE=DATE:1", "EXDATE;VALUE=DATE;TZID=X:1,2", "EXDATE;FOO=1:1", "DTSTART;VALUE=DATE-TIME;VALUE=DATE:1", "DTSTART:1,2", "DTSTART;TZID=A;TZID=B:1",
+                 "FOO:1", "RRULE;X=1:FREQ=DAILY", "EXRULE;X:1", ";:", ":", "", "A", "RRULE", "DTSTART", "X;Y", "DTSTART:", ";RRULE:1", "RRULE:A:B", "EXDATE;:1"]
+        reqs, exp = [], []
+        for i in range(ctx.budget(200, 2000)):
+            r_, s_, _ = rules[i % len(rules)] if rules else (None, "", None)
+            lines = s_.upper().split("\n") + rng.sample(extra, rng.randint(0, 3))
+            rng.shuffle(lines)
+            if rng.random() < 0.3 and lines:
+                k = rng.randrange(len(lines)); j = rng.randint(0, len(lines[k]))
+                lines[k] = lines[k][:j] + rng.choice(list(";:,=") + ["TZID=Q;", "VALUE=DATE;"]) + lines[k][j:]
+            if any(("," in l or "[" in l or "]" in l or not all(ord(c) < 128 for c in l)) and False for l in lines):
+                continue
+            ns = base_ns(); ns.update(lines=list(lines), rrulevals=[], rdatevals=[], exrulevals=[], exdatevals=[], dtstart=None, self=Stub(),
+                                      TZID_NAMES={}, ignoretz=False, tzids=None, tzinfos=None)
+            def hl(xs): return "[" + ",".join(hexs(x) for x in xs) + "]"
+            def dv(d): return hexs(d[0]) + "|" + hexs(";".join(d[1]))
+            try:
+                exec(c_disp, ns)
+                e = "ok %s %s %s [%s] %s" % (hl(ns["rrulevals"]), hl(ns["rdatevals"]), hl(ns["exrulevals"]), ",".join(dv(d) for d in ns["exdatevals"]),
+                                             "-" if ns["dtstart"] is None else hexs(",".join(v for v, _ in [ns["dtstart"]])) + "|" + hexs(";".join(ns["dtstart"][1])))
+            except Exception as ex:
+                e = "err " + exc_kind(ex)
+            reqs.append("rrsgen.dispatch %s" % hl(lines)); exp.append(e)
+        for q, e, g in zip(reqs, exp, ctx.driver(reqs)):
+            if e != g:
+                ctx.mismatch("rrsgen.dispatch (translated line dispatch loop of _parse_rfc vs the statement itself)", q, e, g)
+        ctx.traces += len(reqs); ctx.count("gen_dispatch_cases", len(reqs))
     # 3. attaching the zone: all nine combinations
     zones = {"-": None, "t": datetime.timezone.utc, "lc" + hexs("X"): datetime.timezone(datetime.timedelta(hours=1), "X")}
     back = {id(v): k for k, v in zones.items()}
@@ -600,6 +658,11 @@ def _correspondence(ctx):
         rules.append((r, s, (freq, ds, kw)))
         reqs.append(str_request(r)); exp.append("ok " + hexs(s))
     got = ctx.driver(reqs)
+    # the same requests answered by the SOURCE TRANSLATION of rrule.__str__ (Gen.rruleStr), against str(rule) itself
+    for q, e, g in zip(reqs, exp, ctx.driver([q.replace("rrs.str ", "rrsgen.str ", 1) for q in reqs])):
+        if e != g:
+            ctx.mismatch("rrsgen.str (translated rrule.__str__ vs str(rule))", q, e, g)
+    ctx.traces += len(reqs)
     ctx.c13_str_mismatch_rules = []
     for q, e, g, rl in zip(reqs, exp, got, rules):
         if e != g:
@@ -631,6 +694,9 @@ def _correspondence(ctx):
         for q, e, g in zip(areqs, aexp, got):
             if e != g:
                 ctx.mismatch("rrs.str (ambient first weekday)", q, e, g)
+        for q, e, g in zip(areqs, aexp, ctx.driver([q.replace("rrs.str ", "rrsgen.str ", 1) for q in areqs])):
+            if e != g:
+                ctx.mismatch("rrsgen.str (translated rrule.__str__, ambient first weekday)", q, e, g)
         got = ctx.driver([q for q, _, _ in aparse])
         for (q, res, k), g in zip(aparse, got):
             if canon_impl(res, g) != g:
@@ -660,6 +726,21 @@ def _correspondence(ctx):
             # single edits
             k = rng.randint(0, len(s))
             cases.append((s[:k] + rng.choice(list(";=,:+-0123456789 \nMOXZ(") + ["BYDAY=", "FREQ="]) + s[k + rng.randint(0, 1):], {}))
+    # single RRULE lines (the fast path hands them to _parse_rfc_rrule unchanged): as printed, without the RRULE: prefix, respelled, edited
+    for r, s, _ in rules:
+        ln = s.split("\n")[-1]
+        cases.append((rng.choice([ln, ln[6:]]), {}))
+        v = spell(rng, ln, 3)
+        if len(v.split()) == 1:
+            cases.append((v, {}))
+        if rng.random() < 0.3:
+            k = rng.randint(0, len(ln))
+            cases.append((ln[:k] + rng.choice(list(";=,:+-0(MO") + ["BYDAY=", "=", ";;"]) + ln[k + rng.randint(0, 1):], {}))
+    # BYDAY / BYWEEKDAY items at the edges of the splitter (both syntaxes, signs, zero, missing pieces)
+    for item in ["MO(", "(1)", "1", "+", "+-1MO", "MO(+1", "1MO(2)", "", "MO()", "12", "-0TU", "TU(0)", "TU(+0)", "+0TU", "mo(1)", "1mo", "MO(1)(2)",
+                 "MO(1))", "5", "-", "+1", "SU(-53)", "53SU", "1_0MO", "MO( 1 )", " 1MO", "1 MO", "XX(1)", "(", "()", "1(MO)", "MOTU", "+1+1MO"]:
+        cases.append(("FREQ=DAILY;%s=%s" % (rng.choice(["BYDAY", "BYWEEKDAY", "byday"]), item), {}))
+        cases.append(("FREQ=DAILY;BYDAY=TU,%s,WE" % item, {}))
     # DTSTART / EXDATE lines with TZID parameters in every spelling (the name table, case, parameter order, folding)
     for r, s, _ in rules:
         if rng.random() < 0.5:
@@ -680,7 +761,7 @@ def _correspondence(ctx):
         if rng.random() < 0.7:
             cases += rng.sample(path_variants(rng, s), 2)
     cases += [(m, {}) for m in MALFORMED] + [(m, {"forceset": True}) for m in MALFORMED[:12]] + [(m, {"unfold": True}) for m in MALFORMED[:12]]
-    reqs, impl = [], []
+    reqs, impl, gen_line = [], [], []
     for text, opts in cases:
         if not all(ord(c) < 128 for c in text):
             continue
@@ -692,7 +773,28 @@ def _correspondence(ctx):
         except Timeout:
             ctx.count("impl_timeout"); continue
         reqs.append("rrs.parse %s %s" % (flags, hexs(text))); impl.append(res)
+        if flags == "0000000" and len(text.split()) == 1 and text.strip() == text and (":" not in text or text.upper().startswith("RRULE:")):
+            gen_line.append(("rrsgen.line %s" % hexs(text.upper()), res))      # the single-line fast path IS _parse_rfc_rrule(lines[0])
+    # the source translation of _parse_rfc_rrule / the _handle_* dispatch against the recorded constructor call
+    for (q, res), g in zip(gen_line, ctx.driver([q for q, _ in gen_line])):
+        if isinstance(res, tuple):
+            continue
+        if isinstance(res, str) and res.startswith("err"):
+            if g.startswith("ok") and res == "err ValueError":
+                continue                      # rejected downstream of the translated function (rrule(**kwargs), parser.parse)
+            if g != res.replace("err ParserError", "err ValueError"):
+                ctx.mismatch("rrsgen.line (translated _parse_rfc_rrule)", q, res, g)
+            continue
+        if " o" in g or "[o" in g or ",o" in g or "o+" in g:
+            continue
+        if canon_impl(res, g) != g:
+            ctx.mismatch("rrsgen.line (translated _parse_rfc_rrule)", q, canon_impl(res, g), g)
+    ctx.traces += len(gen_line); ctx.count("gen_rule_line_cases", len(gen_line))
     got = ctx.driver(reqs)
+    # the translated __call__ (a pure delegation) must answer every request exactly like the model of _parse_rfc it delegates to
+    for q, g, g2 in zip(reqs, got, ctx.driver([q.replace("rrs.parse ", "rrsgen.call ", 1) for q in reqs])):
+        if g != g2:
+            ctx.mismatch("rrsgen.call (translated _rrulestr.__call__)", q, g, g2)
     for q, res, g in zip(reqs, impl, got):
         e = canon_impl(res, g)
         g2 = g
